@@ -31,7 +31,7 @@ CLASS_NAMES = ["A", "A1", "B", "C", "D", "E", "F"]
 # argument pool, chosen to collide: -1/-2 (equal hashes, unequal values),
 # 1 / 1.0 / True (equal values), tuples built afresh on every use, strings
 ARG_POOL = [-1, -2, 0, 1, 1.0, True, "a", "b", ["t", 1], ["t", 2], [], None, 2**61 - 1, 0.5]
-KW_NAMES = ["x", "y", "z"]
+KW_NAMES = ["x", "y", "z", "key", "hashfunc", "instance", "name"]
 
 
 def decode_arg(a):
@@ -70,6 +70,10 @@ def make_classes(hook=None):
         def __init__(self, *args, **kwargs):
             self.init_count = getattr(self, "init_count", 0) + 1
             self.init_args = (args, dict(kwargs))
+            # a fresh token per run of __init__: lets the harness recognise an
+            # instance it holds no reference to
+            hook["n"] = hook.get("n", 0) + 1
+            self.token = hook["n"]
             fn = hook["fn"]
             if fn is not None:
                 hook["fn"] = None  # one shot
@@ -111,8 +115,11 @@ class St:
         self.cfg = cfg
         self.hook = {"fn": None}
         self.classes = make_classes(self.hook)
-        self.inst = {}  # instance label -> object
+        self.inst = {}  # instance label -> object (None when the run keeps no references)
         self.label = {}  # id(obj) -> label
+        self.token = {}  # instance label -> token
+        self.tok2lab = {}
+        self.hold = bool(cfg.get("hold_refs", True))
         self.inst_cls = {}  # instance label -> class name it was created by
         self.inits = {}  # instance label -> init_count seen last
         self.model = {c: {} for c in CLASS_NAMES}  # cls -> {key: label}
@@ -124,7 +131,24 @@ class St:
     def lab(self, obj):
         if obj is None:
             return None
-        return self.label.get(id(obj), f"?{type(obj).__name__}")
+        return self.tok2lab.get(getattr(obj, "token", None), f"?{type(obj).__name__}")
+
+    def same(self, obj, lab):
+        if obj is None or getattr(obj, "token", None) != self.token.get(lab):
+            return False
+        return not self.hold or obj is self.inst[lab]
+
+    def register(self, lab, obj, cls):
+        self.inst[lab] = obj if self.hold else None
+        self.label[id(obj)] = lab
+        self.token[lab] = getattr(obj, "token", None)
+        self.tok2lab[self.token[lab]] = lab
+        self.inst_cls[lab] = cls
+        self.inits[lab] = getattr(obj, "init_count", None)
+
+    def known(self, obj):
+        lab = self.tok2lab.get(getattr(obj, "token", None))
+        return lab
 
 
 def call_args(op):
@@ -175,6 +199,7 @@ class C17(engine.Property):
         "unkeyable-arguments",
         "construction-failed-in-init",
         "arguments-shaped-like-another-call's-key",
+        "no-reference-held-construct-live-key",
     ]
 
     def make_config(self, rng):
@@ -197,6 +222,9 @@ class C17(engine.Property):
             "p_during": rng.choice([0.0, 0.0, 0.15, 0.4]),
             "p_unkeyable": rng.choice([0.0, 0.0, 0.05, 0.1]),
             "p_init_fails": rng.choice([0.0, 0.0, 0.08, 0.2]),
+            # does the caller keep the objects it is given?  (a keyed registry
+            # used as `Settings("db").values[...] = ...` keeps none)
+            "hold_refs": rng.random() < 0.65,
             "weights": gen.swarm_weights(
                 rng,
                 ["construct", "add_mapping", "drop", "check", "get_all", "clear"],
@@ -269,7 +297,7 @@ class C17(engine.Property):
                     elif rng.random() < cfg.get("p_init_fails", 0.0):
                         op["init_fails"] = True
                 return op
-            if kind == "add_mapping" and st.inst:
+            if kind == "add_mapping" and st.inst and st.hold:
                 obj = rng.choice(sorted(st.inst))
                 args, kwargs = self._args(rng, cfg, st, st.inst_cls[obj])
                 return {"op": "add_mapping", "obj": obj, "args": args, "kwargs": kwargs}
@@ -282,7 +310,7 @@ class C17(engine.Property):
         k = op["op"]
         s = st.stats
         if k == "add_mapping":
-            if op["obj"] not in st.inst:
+            if op["obj"] not in st.inst or st.inst[op["obj"]] is None:
                 return None, None
             cls = st.inst_cls[op["obj"]]
         else:
@@ -346,8 +374,10 @@ class C17(engine.Property):
                 )
             if live is not None:
                 s["probe:construct-live-key"] += 1
+                if not st.hold:
+                    s["probe:no-reference-held-construct-live-key"] += 1
                 out = {"ret": st.lab(obj)}
-                if obj is not st.inst[live]:
+                if not st.same(obj, live):
                     v = engine.viol(
                         "C17/live-key-returned-other-object",
                         {"op": op, "expected": live, "got": st.lab(obj)},
@@ -358,8 +388,8 @@ class C17(engine.Property):
                         {"op": op, "instance": live, "init_count": getattr(obj, "init_count", None)},
                     )
             else:
-                known = st.label.get(id(obj))
-                if known is not None and st.inst.get(known) is obj:
+                known = st.known(obj)
+                if known is not None:
                     out = {"ret": known}
                     kind = "C17/new-key-returned-existing-instance"
                     if type(obj) is not klass:
@@ -375,10 +405,7 @@ class C17(engine.Property):
                     )
                 else:
                     lab = op["new"]
-                    st.inst[lab] = obj
-                    st.label[id(obj)] = lab
-                    st.inst_cls[lab] = cls
-                    st.inits[lab] = getattr(obj, "init_count", None)
+                    st.register(lab, obj, cls)
                     st.model[cls][key] = lab
                     st.keyargs[cls][key] = (op["args"], op["kwargs"])
                     st.mutations += 1
@@ -435,7 +462,7 @@ class C17(engine.Property):
                 )
             out = {"ret": st.lab(got)}
             exp = st.model[cls].get(key)
-            if (got is None) != (exp is None) or (exp is not None and got is not st.inst[exp]):
+            if (got is None) != (exp is None) or (exp is not None and not st.same(got, exp)):
                 v = engine.viol(
                     "C17/check-reports-wrong-entry",
                     {"op": op, "expected": exp, "got": st.lab(got)},
@@ -482,7 +509,7 @@ class C17(engine.Property):
         s = st.stats
         s["fault:failing-call"] += 1
         s["probe:unkeyable-arguments"] += 1
-        before = sum(getattr(o, "init_count", 0) for o in st.inst.values())
+        before = sum(getattr(o, "init_count", 0) for o in st.inst.values() if o is not None)
         n_before = {c: len(list(singleton.get_all_semi_singleton_instances(st.classes[c]))) for c in st.cfg["classes"]}
         try:
             if k == "construct":
@@ -501,7 +528,7 @@ class C17(engine.Property):
             return out, engine.viol(
                 "C17/failed-call-changed-a-registry", {"op": op, "before": n_before, "after": n_after}
             )
-        if sum(getattr(o, "init_count", 0) for o in st.inst.values()) != before:
+        if sum(getattr(o, "init_count", 0) for o in st.inst.values() if o is not None) != before:
             return out, engine.viol("C17/failed-call-ran-init-of-live-instance", {"op": op})
         return out, self._requery(st, op)
 
@@ -526,12 +553,9 @@ class C17(engine.Property):
             return
         live = st.model[d["cls"]].get(key)
         obj = klass(*args, **kwargs)
-        if live is None and d["new"] not in st.inst and id(obj) not in st.label:
+        if live is None and d["new"] not in st.inst and st.known(obj) is None:
             lab = d["new"]
-            st.inst[lab] = obj
-            st.label[id(obj)] = lab
-            st.inst_cls[lab] = d["cls"]
-            st.inits[lab] = getattr(obj, "init_count", None)
+            st.register(lab, obj, d["cls"])
             st.model[d["cls"]][key] = lab
             st.keyargs[d["cls"]][key] = (d["args"], d["kwargs"])
 
@@ -595,7 +619,7 @@ class C17(engine.Property):
                     return engine.viol(
                         "C17/requery-raised", {"class": c, "exc": type(exc).__name__, "after": op}
                     )
-                if got is not st.inst[lab]:
+                if not st.same(got, lab):
                     kind = "C17/isolation:other-class-answer-changed"
                     if op.get("cls", None) == c or (
                         op["op"] == "add_mapping" and st.inst_cls.get(op["obj"]) == c
